@@ -91,28 +91,10 @@ theorem stepStrptime_coherent (o : Oracle) (t : Thread) (st : MStore) (memo : Me
   | conv => exact ⟨rfl, hc⟩
   | ok layout rest =>
     simp only
-    cases rest with
-    | nil => exact ⟨rfl, hc⟩
-    | cons v rest' =>
-      cases v with
-      | str s => exact hwith layout s rest'
-      | int g =>
-        simp only
-        cases hpi : popInt o st t.dead rest' with
-        | bad f => exact ⟨rfl, hc⟩
-        | conv => exact ⟨rfl, hc⟩
-        | ok re rest'' =>
-          simp only
-          split
-          · exact ⟨rfl, hc⟩
-          · split
-            · split
-              · exact ⟨rfl, hc⟩
-              · split
-                · exact hwith layout _ rest''
-                · exact ⟨rfl, hc⟩
-            · exact ⟨rfl, hc⟩
-      | nil | bool _ | i64 _ | f64 _ | dur _ | datum _ _ | metric _ => exact hwith layout [] rest'
+    cases hp2 : popString o st t.dead rest with
+    | bad f => exact ⟨rfl, hc⟩
+    | conv => exact ⟨rfl, hc⟩
+    | ok ts rest' => exact hwith layout ts rest'
 
 theorem step_coherent (o : Oracle) (p : Prog) (inp : Input) (i : Instr) (t : Thread) (st : MStore)
     (m1 m2 : Memo) (h1 : Coherent o m1) (h2 : Coherent o m2) :
